@@ -96,14 +96,14 @@ static void nd_indices(const unsigned idx[16], const char *what) {
 static long find(const uint8_t *h, size_t hn, const uint8_t *n, size_t nn, size_t *where) { long c = 0; for (size_t i = 0; i + nn <= hn; i++) if (h[i] == n[0] && !memcmp(h + i, n, nn)) { if (!c && where) *where = i; c++; } return c; }
 
 static uint64_t BYTES_SCANNED; static long CELLS, CALLS;
-static char CELLS_SEEN[80][48]; static int NCELLS_SEEN;
+static char CELLS_SEEN[96][48]; static int NCELLS_SEEN;
 static struct res *R; static const char *BUILD = "?";
 static int SEEDNO;
 
 static void scan(const char *cell) {
     CALLS++;
     int seen = 0; for (int i = 0; i < NCELLS_SEEN; i++) if (!strcmp(CELLS_SEEN[i], cell)) seen = 1;
-    if (!seen && NCELLS_SEEN < 80) strcpy(CELLS_SEEN[NCELLS_SEEN++], cell);
+    if (!seen && NCELLS_SEEN < 96) strcpy(CELLS_SEEN[NCELLS_SEEN++], cell);
     R->cases++; R->calls++;
     static uint8_t *sec; size_t ss = sec_size(); if (!sec) sec = malloc(ss + 16); sec_save(sec);
     BYTES_SCANNED += STK + ss;
@@ -202,8 +202,8 @@ int main(int argc, char **argv) {
         /* ---- decoders */
         for (int ex = 0; ex < 2; ex++) {
             int fn = ex ? F_DECODE_EX : F_DECODE;
-            static const int DEC_LANGS[] = { 0, 3, 2 };
-            for (unsigned k = 0; k < 3; k++) {
+            static const int DEC_LANGS[] = { 0, 3, 2, 8 };      /* plain, accents, composing, unsorted list */
+            for (unsigned k = 0; k < 4; k++) {
                 int li = DEC_LANGS[k]; char good_ph[2048]; ref_phrase(&rs, li, 1, good_ph, 0);
                 struct { const char *name; int st; int fail; unsigned mask; unsigned coin; int mut; } DC[] = {
                     { "ok", POLYSEED_OK, 0, 7, 1, 0 }, { "num_words", POLYSEED_ERR_NUM_WORDS, 0, 7, 1, 1 }, { "lang", POLYSEED_ERR_LANG, 0, 7, 1, 2 },
